@@ -28,6 +28,8 @@ def run(ctx):
     ctx.step(publish, ctx)
     ctx.step(c05.unlink_first, ctx, "C12.erase-next", all_or_nothing=True)
     ctx.step(iters, ctx)
+    # a traversal is only protected once its handle is in the log: every way of reaching the list through a handle registers
+    ctx.step(c05.register, ctx, "C12.register", True, False)
     from . import c13
     ctx.step(c13.uaf, ctx, "C12.uaf", [f for f in ctx.fb.functions(rec=RCU)], floor=10)
     ctx.step(common.atomic_floors, ctx, "C12.orders", [RCU, NODE], floor=20, files=["rcu_list.hpp"])
@@ -64,6 +66,25 @@ def _nonnull_on_path(ev, load_toks):
             if a[0] == "truth":
                 return bool(a[3])
     return None
+
+
+def reentrancy_rule(ctx, rid):
+    """the element constructor is user code and may re-enter the list (recursive mutexes are supported): an end of the
+    list sampled before it runs is stale afterwards - a node erased in between would be linked back in"""
+    ctx.rule(rid, "insertions read m_head / m_tail only after the new element was constructed", floor=8)
+    for nm in ("push_front", "emplace_front", "push_back", "emplace_back"):
+        for f in ctx.fb.functions(rec=RCU, name=nm):
+            mk = [st for st in f.stmts.values() if st["k"] == "CallExpr" and callee_fq(st) == "gmlc::libguarded::detail::allocate_unique"]
+            if len(mk) != 1 or f.pos_of(mk[0]) is None:
+                ctx.unknown("%s: %s: cannot find the allocate_unique call of %s" % (rid, f.where, nm))
+                continue
+            early = [op for op in atomic_ops(f) if op["op"] == "load" and atomic_field_of(f, op) in ((RCU, "m_head"), (RCU, "m_tail"))
+                     and f.pos_of(op["st"]) and f.reach_avoiding(f.pos_of(op["st"]), f.pos_of(mk[0]), [])]
+            ctx.ob(rid, not early, f.loc(early[0]["st"]) if early else f.where,
+                   "%s samples the ends of the list after the user constructor ran" % nm,
+                   "" if not early else "%s is read before the element is constructed and used afterwards: a constructor that "
+                   "erases that node re-entrantly gets it linked back into the list (readers then reach freed memory)" % early[0]["obj"],
+                   fn=f.label, inst=f.qname)
 
 
 def publish(ctx, rid="C12.publish", reentrancy=True):
